@@ -34,7 +34,7 @@ var decoderFuncs = map[string]bool{
 	"sha.ReadHash": true, "binary.ReadNullTerminatedString": true,
 }
 
-var safetyKinds = map[string]bool{"nil": true, "bounds": true, "div": true, "mapnil": true, "panic": true, "regexp": true}
+var safetyKinds = map[string]bool{"nil": true, "bounds": true, "div": true, "mapnil": true, "panic": true, "regexp": true, "alloc": true}
 
 func isSafety(o *Obligation) bool {
 	return safetyKinds[o.Kind] || strings.HasPrefix(o.Kind, "dec/")
